@@ -110,10 +110,20 @@ Definition mixin_stub (n : string) : stub :=
 
 (* the properties of the transport class, in the order of definition: methods, then the legacy IAM ones,
    then the mixins (IAM mixins only without add-iam-methods).  A later definition of a name replaces an earlier one. *)
+(* transports/_mixins.py.j2 and _mixins.py.j2 emit the mixin methods that are configured, in these fixed orders *)
+Definition TRANSPORT_MIXIN_ORDER : list string :=
+  ["DeleteOperation"; "CancelOperation"; "WaitOperation"; "GetOperation"; "ListOperations";
+   "ListLocations"; "GetLocation"; "SetIamPolicy"; "GetIamPolicy"; "TestIamPermissions"].
+Definition CLIENT_MIXIN_ORDER : list string :=
+  ["ListOperations"; "GetOperation"; "DeleteOperation"; "CancelOperation"; "WaitOperation";
+   "SetIamPolicy"; "GetIamPolicy"; "TestIamPermissions"; "GetLocation"; "ListLocations"].
+Definition mixins_emitted (order : list string) (s : svc) : list string :=
+  filter (fun n => mem_str n (s_mixins s) && negb (is_iam n && s_add_iam s)) order.
+
 Definition transport_props (s : svc) : list stub :=
   map (stub_of s) (s_methods s)
   ++ (if s_add_iam s then map iam_stub IAM_LEGACY else [])
-  ++ map mixin_stub (filter (fun n => negb (is_iam n && s_add_iam s)) (s_mixins s)).
+  ++ map mixin_stub (mixins_emitted TRANSPORT_MIXIN_ORDER s).
 
 Fixpoint live_from (k : string) (l : list stub) (found : option stub) : option stub :=
   match l with
@@ -140,13 +150,21 @@ Record client_method := mkCM {
 Definition method_cms (s : svc) : list client_method :=
   map (fun m => mkCM (client_name m) Table (key_of m)) (s_methods s).
 Definition mixin_cms (s : svc) : list client_method :=
-  map (fun n => mkCM (snake n) Table (snake n)) (filter (fun n => negb (is_iam n && s_add_iam s)) (s_mixins s)).
+  map (fun n => mkCM (snake n) Table (snake n)) (mixins_emitted CLIENT_MIXIN_ORDER s).
 Definition legacy_iam_cms (v : variant) (s : svc) : list client_method :=
   if s_add_iam s then map (fun kn => mkCM (fst kn) (match v with Sync => Direct | Async => Table end) (fst kn)) IAM_LEGACY
   else [].
 (* the rpc-calling methods of the client class, in the order of definition *)
 Definition client_methods (v : variant) (s : svc) : list client_method :=
   method_cms s ++ mixin_cms s ++ legacy_iam_cms v s.
+
+(* the client class keeps the last definition of a method name: the RPC whose body runs when <name> is called *)
+Fixpoint live_meth_from (n : string) (l : list meth) (found : option meth) : option meth :=
+  match l with
+  | [] => found
+  | m :: l' => live_meth_from n l' (if String.eqb (client_name m) n then Some m else found)
+  end.
+Definition live_meth (s : svc) (n : string) : option meth := live_meth_from n (s_methods s) None.
 
 Definition client_lookup_keys (v : variant) (s : svc) : list string :=
   map cm_key (filter (fun c => match cm_form c with Table => true | Direct => false end) (client_methods v s)).
